@@ -41,6 +41,7 @@ structure DSt where
   inStream : Bytes := []        -- what the peer writes and the engine has not read yet
   running : Bool := true
   segNo : Nat := 0
+  br : List (String × Nat) := []   -- model branches taken (for the input-distribution report)
 
 def kv (t : String) : Option (String × String) :=
   match t.splitOn "=" with
@@ -161,6 +162,51 @@ def soOkOf (ts : List Tok) : Bool :=
   | some [_, v] => v = "0"
   | _ => true
 
+def bump (br : List (String × Nat)) (k : String) : List (String × Nat) :=
+  match br with
+  | [] => [(k, 1)]
+  | (k', n) :: rest => if k' = k then (k', n + 1) :: rest else (k', n) :: bump rest k
+
+/-- names of the model branches one input took, read off the state before/after and the outputs -/
+def branchesOf (cfg : Cfg) (s : St) (i : In) (r : R) : List String :=
+  let closes := r.2.filterMap fun o => match o with
+    | .close .backpressure => some "close:backpressure" | .close .socket => some "close:socket" | .close .tlsIo => some "close:tlsIo"
+    | .close .peerClosed => some "close:peerClosed" | .close .connect => some "close:connect" | .close .tlsHandshake => some "close:tlsHandshake"
+    | .close .app => some "close:app" | .close .shutdown => some "close:shutdown" | _ => none
+  let nW := (r.2.filter fun o => match o with | .write _ _ => true | _ => false).length
+  let base : List String := match i with
+    | .cmdSend p a =>
+      if s.closed then ["send:on-closed-session"]
+      else if s.tls = .handshake then ["send:queued-in-handshake-window"]
+      else if s.wq.isEmpty then
+        match classifyW (s.tls == .open) a with
+        | .progress n => if n < p.length then (if n = 0 then ["send:direct-zero-bytes"] else ["send:direct-short"]) else ["send:direct-whole"]
+        | .block _ => ["send:direct-refused-then-queued"]
+        | .fail => ["send:direct-error"]
+      else if s.wq.length + 1 > cfg.maxWriteQueue then
+        (if cfg.closeOnBackpressure then ["send:queue-overflow-close"] else ["send:queue-overflow-drop-oldest"])
+      else ["send:queued-behind-pending"]
+    | .cmdClose _ => if s.closed then ["close:on-closed-session"] else []
+    | .connectCheck c => match c with
+      | .established => ["connect:immediate"] | .notYet => ["connect:pending"] | .failed => ["connect:failed-immediately"]
+    | .event ev _ _ h _ _ =>
+      (if s.closed then ["event:on-closed-session"] else []) ++
+      (if s.tls = .handshake ∧ ¬ s.closed then
+        [match h with | .done => "handshake:done" | .wantR => "handshake:want-read" | .wantW => "handshake:want-write" | .err => "handshake:error"] ++
+        (if s.wq.isEmpty then [] else ["handshake:event-with-data-queued"]) else []) ++
+      (if ev.hup then ["event:hup-or-err"] else []) ++
+      (if s.connectPending ∧ ¬ r.1.connectPending ∧ s.tls = .none then ["connect:completed-by-event"] else []) ++
+      (if r.1.receivedRev.length > s.receivedRev.length then ["read:data"] else []) ++
+      (if r.1.receivedRev.length > s.receivedRev.length + 1 then ["read:several-chunks-in-one-event"] else []) ++
+      (if nW > 0 then
+        (if r.1.closed then ["drain:error"] else if r.1.wq.isEmpty then ["drain:emptied"]
+         else if r.1.wq.length < s.wq.length then ["drain:some-buffers-then-stopped"] else ["drain:front-only"]) ++
+        (if nW > 1 then ["drain:several-buffers-in-one-event"] else []) ++
+        (if ¬ r.1.closed ∧ r.1.wq.length = s.wq.length ∧ r.1.pending < s.pending then ["drain:short-write-of-front"] else []) ++
+        (if ¬ r.1.closed ∧ r.1.pending = s.pending ∧ ¬ s.wq.isEmpty then ["drain:refused"] else [])
+       else if ev.out ∧ ¬ s.closed ∧ s.tls ≠ .handshake ∧ s.wq.isEmpty then ["drain:nothing-queued"] else [])
+  base ++ closes
+
 /-- run one model input on the session, check its outputs against the trace, advance the peer stream by what was read -/
 def runIn (d : DSt) (s : St) (i : In) (ts : List Tok) : Except String (DSt × List Tok) :=
   let r := step d.cfg s i
@@ -168,7 +214,8 @@ def runIn (d : DSt) (s : St) (i : In) (ts : List Tok) : Except String (DSt × Li
   | .error e => .error e
   | .ok rest =>
     let readNow := (r.1.receivedRev.take (r.1.receivedRev.length - s.receivedRev.length)).foldl (fun n b => n + b.length) 0
-    .ok ({ d with sess := some r.1, inStream := d.inStream.drop readNow }, rest)
+    .ok ({ d with sess := some r.1, inStream := d.inStream.drop readNow,
+                  br := (branchesOf d.cfg s i r).foldl bump d.br }, rest)
 
 def expectTok (exp : Tok) (ts : List Tok) : Except String (List Tok) :=
   match ts with
@@ -317,7 +364,9 @@ def step (d : DSt) : List String → DSt × String
     match runSeg d line with
     | .ok d' => ({ d' with segNo := d.segNo + 1 }, "ok")
     | .error e => ({ d with segNo := d.segNo + 1 }, s!"reject seg={d.segNo} {e}")
-  | ["tcp", "end"] => (d, s!"ok {showSt d} acc_left={d.acc.length}")
+  | ["tcp", "end"] =>
+    let brs := ",".intercalate (d.br.map fun (k, n) => s!"{k}={n}")
+    (d, s!"ok {showSt d} acc_left={d.acc.length} br={if brs.isEmpty then "-" else brs}")
   | _ => (d, "bad-op")
 
 def main : IO Unit := runLines ({} : DSt) step
